@@ -2,7 +2,9 @@
 
 S (property oracle, independent of M): every `integrate*` route of every family against `mpmath.quad` of
 x^n·density at 30 digits, additivity at the split points, signs, the truncated wrapper (also wrappers of wrappers, built
-with the class or by repeated truncate_levy_measure: integral over the intersection of all intervals), the density itself.
+with the class or by repeated truncate_levy_measure: integral over the intersection of all intervals), the density itself;
+high moment orders (one n per stratum up to 175 / 60, break points at the modes of x^n·density) against the incomplete gamma
+function at 50 digits, cross-checked by quadrature.
 C (implementation vs M, through Drivers/C09.lean): `_truncated_interval`, `a > b` errors, the polynomial and sign
 logic of `integral_xn_exp_minus_x`, VG `integrate_against_xn`, the HEM closed forms (M returns a closed form as
 the list of its terms Σ c·exp(e) with rational c, e; evaluated here with mpmath), the split-at-zero pattern.
@@ -13,7 +15,9 @@ import copy
 import math
 import os
 import random
+import sys
 import warnings
+from functools import lru_cache
 
 import mpmath as mp
 import numpy as np
@@ -27,6 +31,8 @@ from rpylib.tools import integral as toolint
 mp.mp.dps = 30
 INF = math.inf
 NMAX = 6
+if hasattr(sys, "set_int_max_str_digits"):      # M answers with exact rationals: thousands of digits at moment orders > 100
+    sys.set_int_max_str_digits(200000)
 
 RULE = ("per model (defaults of HEM/Merton/VG/CGMY, one CGMY draw per activity branch y<0, y=0, 0<y<1, y=1, 1<y<2, then "
         "zoo.draw_params draws, then the boundary of the declared parameter constraints (edge_stream: CGMY g = 0, m = 0, g = m = 0 "
@@ -59,7 +65,25 @@ RULE = ("per model (defaults of HEM/Merton/VG/CGMY, one CGMY draw per activity b
         "points (class and truncate_levy_measure) x 17 intervals x n = 0..3 x both routes (c09.truncated), 4 quadratures of nu.__call__ "
         "between adjacent feature points (c09.own_density). The reference pieces are first verified against the analytic value (Gaussian "
         "partial-moment recurrence with erfc; generalised incomplete gamma function; 50 digits; c09.regime.reference, agreement to 1e-13 "
-        "relative or the piece is discarded and the cases needing it are counted as skipped). non-trivial = |ref| > 1e-9 and a < b; distinct = distinct (model, route, n, a, b, truncation).")
+        "relative or the piece is discarded and the cases needing it are counted as skipped). "
+        "High moment orders (high_order_run, own generator): the streams above stop at n = 6, the statement says n = 0, 1, 2, 3, ...; per "
+        "family the defaults and zoo.draw_params draws (quick: VG 3, others 2 models; thorough 8 / 5-6), per model one order n from each "
+        "stratum -- closed forms (VG): 7-12, 13-21, 22-30, 31-60, 61-120, 121-175; scipy-quadrature routes (HEM, Merton, CGMY): 7-12, "
+        "13-21, 22-40, 41-60 -- i.e. up to the largest order float(n!) exists for. Break points at 3 of the multiples {0.35, 0.7, 1, 1.4, "
+        "2.2} (jittered 8%) of the MODE of |x|^n * density on each side (VG (n-1)/lambda, HEM n/eta, CGMY (n-1-y)/rate, Merton the roots "
+        "of x(x - mu_j) = n sigma_j^2) plus 0 and both infinities; every pair + one degenerate interval (c09.closed_form, route xn), "
+        "additivity / signs, one truncation (class or truncate_levy_measure) x 13 intervals (c09.truncated); VG also the term-by-term tie "
+        "with M on 10 pairs (c09.vgxn.model) and the split pattern. Reference there: incomplete gamma function / Gaussian recurrence at 50 "
+        "digits per piece, one random piece per case also by tanh-sinh quadrature of the normalised integrand (agreement 1e-12 relative, "
+        "c09.high_order.reference); a case whose reference or tail moments leave 1e-300..1e300 is skipped (counted). Closed-form tolerance "
+        "there: 1e-8*|ref| + 1e-13*(one-sided tail moment) + 1e-300, no absolute 1e-12 (moments of order n scale like (n-1)!/rate^n; "
+        "measured on the unchanged tree <= 5e-16 of the tail moment for n <= 120). integral_xn_exp_minus_x / _helper_sum_fact_xk: a second "
+        "pass with n from the closed-form strata, alpha*end point log-uniform in (0.1 n, 3 n), nine interval shapes (c09.xnexp, "
+        "c09.xnexp.model, c09.helper.model). Every high-order case is classed order_regime = float_range / intermediate_overflow from (n, "
+        "rate, end points) alone (n > 170, or alpha^(n+1), n!*sum_k (alpha u)^k/k!, n!/alpha^(n+1) beyond 1e300): in the second class the "
+        "unchanged code returns inf / nan / raises OverflowError (known finding C09-xn-exp-high-order-float-overflow) and M, exact "
+        "rationals, is not compared. "
+        "non-trivial = |ref| > 1e-9 (high orders: |ref| > 100*tolerance) and a < b; distinct = distinct (model, route, n, a, b, truncation).")
 NOT_PROVED = [
     "special functions: Mathlib has no erf, E1 or incomplete gamma, so Merton (mass, x, x^2; every end-point shape), VG mass and CGMY "
     "(mass for every y < 2, first moment, straddling second moment) are theorems for every function satisfying explicit hypotheses: the "
@@ -73,6 +97,11 @@ NOT_PROVED = [
     "theorem only in value (the named methods are separate code, compared with quadrature and with each other)",
     "the scipy.integrate.quad fallbacks (base-class integrate_against_xn for n >= 3, CGMY one-sided x^2) are numerical: compared only",
     "float rounding / cancellation of the closed forms (conditioning) is absorbed by the tolerance, not modelled",
+    "moment orders: the theorems (xnExp / vgXn) hold for every n in M's exact rationals; the implementation's arithmetic is finite (floats, "
+    "possibly fixed-width integers), so 'exact for small n, wrong for large n' is only seen by the oracle and the term-by-term tie on the "
+    "orders actually drawn: n <= 6 everywhere, one order per stratum up to 175 (closed forms) / 60 (quadrature routes) in the high-order "
+    "stream. Float overflow of the finite sum's intermediates (n >~ 144 near the mode, everything for n >= 171) is a known finding, not "
+    "modelled; orders above 175 are not generated (float(n!) does not exist: the unchanged code raises for every input there)",
     "parameter regimes: the theorems hold for all parameter values of M, but M's closed forms have no float-level shortcuts; a guard in "
     "the implementation that drops or replaces a term depending on the SIZE of an end point relative to a parameter is only seen by the "
     "oracle on inputs where it matters -- hence the regime stream (extreme parameter ratios, end points at the features of the density), "
@@ -307,13 +336,17 @@ def shape_of(a, b):
     return "pos" if a >= 0 else "neg"
 
 
-def tolerance(ref, scale, quad_route, straddle=False):
+def tolerance(ref, scale, quad_route, straddle=False, floor=None):
+    """`floor`: the absolute term of the closed-form routes (default 1e-12: fine for the orders n <= 6, where it is far below
+    every moment that matters).  The high-order stream passes 1e-300: a moment of order n scales like (n-1)!/rate^n, anything from
+    1e-60 to 1e+200, and the rounding error of a closed form is RELATIVE to the one-sided tail moments it subtracts (measured on
+    the unchanged tree for n <= 120: <= 5e-16 of them), so there the judgement is 1e-8*|ref| + 1e-13*scale only"""
     if quad_route:
         # routes the implementation evaluates with scipy.integrate.quad (defaults epsabs = epsrel = 1.49e-8), one call per
         # side of zero since fd99be5.  Measured on the unchanged tree over seeds 0..5 (one-sided and straddling alike):
         # |err| <= 3e-10, so 1e-8 absolute leaves a factor 30; the single-quad-across-zero defect erred by 3e-8..2e-7.
         return mp.mpf("1e-7") * abs(ref) + mp.mpf("1e-8")
-    return mp.mpf("1e-8") * abs(ref) + mp.mpf("1e-12") + mp.mpf("1e-13") * scale
+    return mp.mpf("1e-8") * abs(ref) + (mp.mpf("1e-12") if floor is None else floor) + mp.mpf("1e-13") * scale
 
 
 def _stat(key, err, tol):
@@ -337,6 +370,8 @@ def make_nu(fam, params):
 # ------------------------------------------------------------------------------------------------ per-model probes
 class Case:
     """everything about one model: measure, reference, cache of implementation values"""
+    floor = None            # absolute term of the closed-form tolerance (None: the default 1e-12), see `tolerance`
+    branch_tag = ""
 
     def __init__(self, ctx, fam, params, pts):
         self.ctx, self.fam, self.params = ctx, fam, params
@@ -464,8 +499,10 @@ def closed_form_probe(c: Case, route, n, a, b, nu=None, trunc=None, chain=None, 
     st, v = call(nu, route, n, a, b) if (trunc or chain) else c.impl(route, n, a, b)
     quad_route = is_quad_route(c.fam, n, aa, bb)
     scale = c.ref.scale(n, aa, bb) if aa != bb else mp.mpf(0)
-    tol = tolerance(ref, scale, quad_route, aa < 0 < bb)
-    ctx.count(probe, inp, nontrivial=bool(abs(ref) > 1e-9 and a < b), branch=f"{c.fam}:{'quad' if quad_route else 'closed'}")
+    tol = tolerance(ref, scale, quad_route, aa < 0 < bb, floor=c.floor)
+    # non-trivial: the value is well above what the tolerance lets through (default floor: above 1e-9)
+    nt = abs(ref) > 1e-9 if c.floor is None else abs(ref) > 100 * tol
+    ctx.count(probe, inp, nontrivial=bool(nt and a < b), branch=f"{c.fam}:{'quad' if quad_route else 'closed'}{c.branch_tag}")
     if st != "ok":
         ctx.fail("oracle", probe, inp, {"what": "raises on an interval where the integral is finite", "exception": v,
                                         "reference": mp.nstr(ref, 17)}, cls=cls)
@@ -490,7 +527,7 @@ def additivity_sign_probe(c: Case, n, route):
                 continue
             qr = is_quad_route(c.fam, n, a, b)
             scale = c.ref.scale(n, a, b)
-            tol0 = tolerance(M(v), scale, qr, a < 0 < b)
+            tol0 = tolerance(M(v), scale, qr, a < 0 < b, floor=c.floor)
             # sign: even n non-negative; odd n has the sign of the half-line
             expect = 1 if (n % 2 == 0 or a >= 0) else (-1 if b <= 0 else 0)
             if expect:
@@ -504,8 +541,8 @@ def additivity_sign_probe(c: Case, n, route):
                 if v1 is None or v2 is None:
                     continue
                 inp = c.inp(n, route, a, b, split=s)
-                tol = tol0 + tolerance(M(v1), c.ref.scale(n, a, s), is_quad_route(c.fam, n, a, s), a < 0 < s) \
-                    + tolerance(M(v2), c.ref.scale(n, s, b), is_quad_route(c.fam, n, s, b), s < 0 < b)
+                tol = tol0 + tolerance(M(v1), c.ref.scale(n, a, s), is_quad_route(c.fam, n, a, s), a < 0 < s, floor=c.floor) \
+                    + tolerance(M(v2), c.ref.scale(n, s, b), is_quad_route(c.fam, n, s, b), s < 0 < b, floor=c.floor)
                 ctx.count("c09.additivity", inp, nontrivial=abs(v) > 1e-9, branch="split_at_0" if s == 0 else "split")
                 if not abs(M(v) - M(v1) - M(v2)) <= tol:
                     ctx.fail("oracle", "c09.additivity", inp, {"whole": v, "left": v1, "right": v2, "tolerance": mp.nstr(tol, 5)},
@@ -997,61 +1034,109 @@ def reinit_probe(ctx, fam, params, rng):
                      "the family's density", "reinitialised": v, "fresh": v0}, cls=c.cls(n, route, a, b, reinit=True))
 
 
-def xn_helper_stream(ctx, rng, count):
-    """tools/integral.py: polynomial (exact vs M), sign logic (terms vs M), value (vs quadrature)"""
+def xnexp_reference(n, alpha, a, b, quad=True):
+    """integral of x^n exp(-alpha|x|) over [a, b]: n <= 8 -- tanh-sinh quadrature (split at 0 and at a few decay lengths); n > 8 --
+    the incomplete gamma function at 50 digits and, when `quad`, also the quadrature (split around the mode n/alpha of the
+    integrand too), which must agree to 1e-12 relative (None otherwise: unreliable)"""
+    al = M(alpha)
+    cuts = sorted({a, b} | ({0.0} if a < 0 < b else set()))
+    ks = (1, 4, 15, 40) + (tuple(n * k for k in (0.3, 0.6, 0.85, 1.0, 1.15, 1.4, 2.0, 3.0, 5.0)) if n > 8 else ())
+    ref = mp.mpf(0)
+    for lo, hi in zip(cuts, cuts[1:]):
+        if n > 8:
+            with mp.workdps(50):
+                sgn, u, t = (1, M(lo), M(hi)) if lo >= 0 else (-1, M(-hi), M(-lo))
+                an = sgn ** n * mp.gammainc(n + 1, al * u, al * t) / al ** (n + 1)
+        if quad or n <= 8:
+            mid = [e for e in (k / alpha * s for k in ks for s in (1, -1)) if lo < e < hi]
+            nrm = abs(an) if n > 8 else 1        # quad's error estimate is absolute: normalise the integrand
+            v = mp.quad(lambda x: x ** n * mp.exp(-al * abs(x)) / nrm, [M(lo)] + sorted(M(e) for e in mid) + [M(hi)])
+            if n > 8 and not abs(v - mp.sign(an)) <= mp.mpf("1e-12"):
+                return None
+        ref += +an if n > 8 else v
+    return ref
+
+
+def xn_helper_stream(ctx, rng, count, strata=None):
+    """tools/integral.py: polynomial (exact vs M), sign logic (terms vs M), value (vs quadrature).  `strata`: the order n is drawn from
+    these ranges in turn (high orders; end points at multiples of the mode n/alpha) instead of 0..9 / 0..8"""
     # the polynomial helper is a PRIVATE function: when a refactoring removes or renames it the public integral
     # `integral_xn_exp_minus_x` below is still compared term by term and against quadrature; only this finer tie is unavailable
     helper = getattr(toolint, "_helper_sum_fact_xk", None)
-    if helper is None:
+    if helper is None and strata is None:
         ctx.notes.append("private helper rpylib.tools.integral._helper_sum_fact_xk is gone: its tie with Integrals.helperSum is "
                          "unavailable (the public integral_xn_exp_minus_x is still compared)")
-    for _ in range(count if helper is not None else 0):
-        n = rng.randint(0, 9)
+    for i in range((count if strata is None else count // 3) if helper is not None else 0):
+        n = rng.randint(0, 9) if strata is None else draw_order(rng, strata, i)
         y = rng.choice([0.0, 1.0, -1.0, rng.uniform(-6, 6), rng.uniform(-40, 40), float(rng.randint(-8, 8)) / 4])
+        if strata is not None and i % 2:
+            y = rng.choice([-1, 1]) * n * rng.uniform(0.2, 2.5)          # around the mode of y^n exp(-|y|)
+        inp = dict(n=n, y=y)
+        if xn_intermediate_too_big(n, 1.0, y):
+            ctx.count("c09.helper.model", inp, nontrivial=False, branch="float_overflow_not_modelled")
+            continue
         try:
             got = float(helper(n, y))
         except TypeError:            # same name, another signature: not the function the model mirrors
             ctx.notes.append("private helper _helper_sum_fact_xk has another signature: tie unavailable")
             break
         m = rd(ctx.lean(f"helper {n} {w(y)}"))
-        inp = dict(n=n, y=y)
-        ctx.count("c09.helper.model", inp, nontrivial=n >= 2 and y != 0)
+        ctx.count("c09.helper.model", inp, nontrivial=n >= 2 and y != 0, branch=None if strata is None else "high_order")
         if abs(fr(got) - m) > fr(2.0 ** -40) * abs(m):
             ctx.fail("corr", "c09.helper.model", inp, {"name": "Integrals.helperSum vs _helper_sum_fact_xk", "implementation": got,
                                                        "model": str(m)[:60]}, cls=dict(n=n))
     shapes = ["pos", "neg", "straddle", "pos_inf", "neg_inf", "line", "zero_left", "zero_right", "degenerate"]
     for i in range(count):
-        n = rng.randint(0, 8)
+        n = rng.randint(0, 8) if strata is None else draw_order(rng, strata, i // len(shapes))
         alpha = float(f"{math.exp(rng.uniform(math.log(0.3), math.log(40))):.3g}")
-        u, v = sorted(float(f"{math.exp(rng.uniform(math.log(0.01), math.log(3))) / alpha * 3:.3g}") for _ in range(2))
+        # alpha * end point: log-uniform in (0.03, 9) for the low orders; in (0.1 n, 3 n) -- around the mode n -- for the high ones
+        spread = (lambda: 3 * math.exp(rng.uniform(math.log(0.01), math.log(3)))) if strata is None else \
+            (lambda: n * math.exp(rng.uniform(math.log(0.1), math.log(3))))
+        u, v = sorted(float(f"{spread() / alpha:.3g}") for _ in range(2))
         sh = shapes[i % len(shapes)]
         a, b = {"pos": (u, v), "neg": (-v, -u), "straddle": (-u, v), "pos_inf": (u, INF), "neg_inf": (-INF, -u), "line": (-INF, INF),
                 "zero_left": (0.0, v), "zero_right": (-v, 0.0), "degenerate": (u, u)}[sh]
         inp = dict(n=n, alpha=alpha, a=a, b=b)
         cls = dict(n=n, shape=sh)
-        res = terms_probe(ctx, "c09.xnexp.model", "Integrals.xnExpTerms vs integral_xn_exp_minus_x", f"xnexp {n} {w(alpha)} {w(a)} {w(b)}",
-                          lambda: toolint.integral_xn_exp_minus_x(n=n, a=a, b=b, alpha=alpha), inp, cls)
-        # S: against quadrature of x^n exp(-alpha|x|)
-        al = M(alpha)
-        cuts = sorted({a, b} | ({0.0} if a < 0 < b else set()))
-        ref = mp.mpf(0)
-        for lo, hi in zip(cuts, cuts[1:]):
-            mid = [e for e in (k / alpha * s for k in (1, 4, 15, 40) for s in (1, -1)) if lo < e < hi]
-            ref += mp.quad(lambda x: x ** n * mp.exp(-al * abs(x)), [M(lo)] + sorted(M(e) for e in mid) + [M(hi)])
-        try:
-            got = float(toolint.integral_xn_exp_minus_x(n=n, a=a, b=b, alpha=alpha))
-        except Exception as e:  # noqa
-            got = math.nan
-        ctx.count("c09.xnexp", inp, nontrivial=a < b, branch=sh)
-        tol = mp.mpf("1e-8") * abs(ref) + mp.mpf("1e-13") * mp.factorial(n) / al ** (n + 1) + mp.mpf("1e-300")
-        if not (math.isfinite(got) and abs(M(got) - ref) <= tol):
-            ctx.fail("oracle", "c09.xnexp", inp, {"what": "integral_xn_exp_minus_x differs from the integral of x^n exp(-alpha|x|)",
-                                                  "implementation": got, "reference": mp.nstr(ref, 17)}, cls=cls)
+        xnexp_case(ctx, inp, cls, high=strata is not None, quad=i % 8 == 0)
     # alpha <= 0 raises
-    for alpha in (0.0, -1.5):
+    for alpha in (0.0, -1.5) if strata is None else ():
         inp = dict(n=1, alpha=alpha, a=0.5, b=1.0)
         terms_probe(ctx, "c09.xnexp.model", "Integrals.xnExpTerms vs integral_xn_exp_minus_x", f"xnexp 1 {w(alpha)} 1/2 1",
                     lambda: toolint.integral_xn_exp_minus_x(n=1, a=0.5, b=1.0, alpha=alpha), inp, dict(n=1, shape="alpha<=0"))
+
+
+def xnexp_case(ctx, inp, cls, high=False, quad=True):
+    """one (n, alpha, a, b) of integral_xn_exp_minus_x: C against M's terms, S against the reference integral"""
+    n, alpha, a, b = inp["n"], inp["alpha"], float(inp["a"]), float(inp["b"])
+    big = alpha > 0 and any(xn_intermediate_too_big(n, alpha, 0.0 if math.isinf(u) else u) for u in (a, b))
+    if high or n > 8:
+        cls = dict(cls, high_order=True, order_regime="intermediate_overflow" if big else "float_range")
+    if big:      # M computes in exact rationals: it does not mirror a float overflow
+        ctx.count("c09.xnexp.model", inp, nontrivial=False, branch="float_overflow_not_modelled")
+    else:
+        terms_probe(ctx, "c09.xnexp.model", "Integrals.xnExpTerms vs integral_xn_exp_minus_x", f"xnexp {n} {w(alpha)} {w(a)} {w(b)}",
+                    lambda: toolint.integral_xn_exp_minus_x(n=n, a=a, b=b, alpha=alpha), inp, cls)
+    if not alpha > 0:
+        return
+    # S: against quadrature of x^n exp(-alpha|x|)
+    al = M(alpha)
+    ref = xnexp_reference(n, alpha, a, b, quad)
+    scale = mp.factorial(n) / al ** (n + 1)
+    if ref is None or not (abs(ref) < FLOAT_BIG and 1 / FLOAT_BIG < scale < FLOAT_BIG):
+        ctx.count("c09.xnexp", inp, nontrivial=False, branch="skipped_reference_unreliable_or_not_a_float")
+        return
+    try:
+        with warnings.catch_warnings(), np.errstate(all="ignore"):
+            warnings.simplefilter("ignore")
+            got = float(toolint.integral_xn_exp_minus_x(n=n, a=a, b=b, alpha=alpha))
+    except Exception as e:  # noqa
+        got = math.nan
+    ctx.count("c09.xnexp", inp, nontrivial=a < b, branch=cls.get("shape", "replay") + (":high_order" if high else ""))
+    tol = mp.mpf("1e-8") * abs(ref) + mp.mpf("1e-13") * scale + mp.mpf("1e-300")
+    if not (math.isfinite(got) and abs(M(got) - ref) <= tol):
+        ctx.fail("oracle", "c09.xnexp", inp, {"what": "integral_xn_exp_minus_x differs from the integral of x^n exp(-alpha|x|)",
+                                              "implementation": got, "reference": mp.nstr(ref, 17)}, cls=cls)
 
 
 def special_ode_probe(ctx, rng, count):
@@ -1357,6 +1442,175 @@ def regime_run(ctx):
         regime_probe(ctx, fam, params, label, rng)
 
 
+# ------------------------------------------------------------------------------------------------ high moment orders
+# The statement quantifies over n = 0, 1, 2, 3, ...; the streams above stop at n = 6 (helper ties at 9).  Arithmetic that is exact
+# for small orders and wrong for large ones (a fixed-width integer product that wraps, a table that ends, a float that overflows)
+# is only visible when the ORDER is drawn up to the largest value the public API accepts and the reference can still judge.
+HIGH_STRATA_CLOSED = ((7, 12), (13, 21), (22, 30), (31, 60), (61, 120), (121, 175))     # VG / integral_xn_exp_minus_x (closed forms)
+HIGH_STRATA_QUAD = ((7, 12), (13, 21), (22, 40), (41, 60))                               # base-class scipy quadrature (HEM, Merton, CGMY)
+HIGH_KS = (0.35, 0.7, 1.0, 1.4, 2.2)
+FLOAT_BIG = mp.mpf("1e300")
+
+
+@lru_cache(maxsize=20000)
+def xn_intermediate_too_big(n, alpha, u):
+    """True when a float intermediate of the finite-sum form of int x^n exp(-alpha x) (tools/integral.py:11-41: n!,
+    H(u) = n! * sum_k (alpha u)^k / k!  >= (alpha u)^n, alpha^(n+1), the tail moment H(u) exp(-alpha u) / alpha^(n+1)) leaves the float range although the integral itself may be an ordinary
+    number; `u`: a finite end point (0.0 for an infinite one: only n! and alpha^(n+1) matter).  Threshold 1e300 (floats end at 1.8e308)"""
+    if n > 170:
+        return True         # float(n!) does not exist
+    with mp.workdps(20):
+        al, x = mp.mpf(alpha), mp.mpf(alpha) * abs(mp.mpf(u))
+        if al ** (n + 1) >= FLOAT_BIG or al ** (n + 1) <= 1 / FLOAT_BIG or mp.factorial(n) / al ** (n + 1) >= FLOAT_BIG:
+            return True     # the last one: the half-line moment n!/alpha^(n+1) bounds every helper value H(u) exp(-alpha u) / alpha^(n+1)
+        t, tot = mp.mpf(1), mp.mpf(1)
+        for k in range(1, n + 1):
+            t = t * x / k
+            tot += t
+        return bool(mp.factorial(n) * tot >= FLOAT_BIG)
+
+
+def vg_order_regime(P, n, a, b):
+    """'float_range' / 'intermediate_overflow' for VG's integrate_against_xn(a, b, n), n >= 1 (order n - 1 of the helper integral on
+    each half-line the interval meets)"""
+    lp, lm = float(P._lambda_p), float(P._lambda_m)
+    if a < 0 < b:
+        ends = [(lm, -a), (lm, 0.0), (lp, 0.0), (lp, b)]
+    else:       # the half-line of the statement: b <= 0 is the negative one (so [0, 0] is), everything else the positive one
+        ends = [(lm, -a), (lm, -b)] if b <= 0 else [(lp, a), (lp, b)]
+    big = any(xn_intermediate_too_big(n - 1, al, 0.0 if math.isinf(u) else u) for al, u in ends)
+    return "intermediate_overflow" if big else "float_range"
+
+
+def integrand_modes(fam, P, n):
+    """(positive, negative) location of the maximum of |x|^n * density on each half-line: the FEATURES of the integrand of order n
+    (the break points of the other streams, <= 1.3, leave a high moment entirely in the tail beyond the last point)"""
+    if fam == "merton":
+        mu, s = float(P.mu_j), float(P.sigma_j)
+        r = math.sqrt(mu * mu + 4 * n * s * s)
+        return (mu + r) / 2, (r - mu) / 2
+    pos, neg = (float(x) for x in scales_of(fam, P))
+    e = {"hem": n, "vg": n - 1, "cgmy": n - 1 - (float(P.y) if fam == "cgmy" else 0.0)}[fam]
+    return max(e, 1.0) * pos, max(e, 1.0) * neg
+
+
+class HighOrderCase(Case):
+    """one model at ONE high order n: break points and the reference's interior split points at multiples of the integrand's
+    modes; closed-form tolerance without the absolute 1e-12 (see `tolerance`); classes carry the order regime"""
+    floor = mp.mpf("1e-300")
+    branch_tag = ":high_order"
+
+    def __init__(self, ctx, fam, params, pts, n=None, built=None):
+        self.ctx, self.fam, self.params = ctx, fam, params
+        self.model, self.nu = built if built is not None else make_nu(fam, params)
+        self.P = self.nu.parameters
+        self.ref = Ref(fam, self.P, [p for p in pts if not math.isinf(p)])
+        if n is not None:
+            mpos, mneg = integrand_modes(fam, self.P, n)
+            ks = (0.15, 0.3, 0.5, 0.7, 0.85, 1.0, 1.15, 1.3, 1.6, 2.0, 2.6, 3.5, 5.0, 8.0)
+            self.ref.extra = sorted(set(self.ref.extra) | {k * mpos for k in ks} | {-k * mneg for k in ks})
+        self.pts, self.yb, self.vals = pts, ybranch(fam, self.P), {}
+
+    def cls(self, n, route, a, b, **kw):
+        d = super().cls(n, route, a, b, high_order=True, **kw)
+        if self.fam == "vg" and n >= 1:
+            d["order_regime"] = vg_order_regime(self.P, n, a, b)
+        return d
+
+    def inp(self, n, route, a, b, **kw):
+        return super().inp(n, route, a, b, high_order=True, **kw)
+
+
+def draw_order(rng, strata, i):
+    lo, hi = strata[i % len(strata)]
+    return rng.randint(lo, hi)
+
+
+def high_order_points(fam, P, n, rng, per_side):
+    mpos, mneg = integrand_modes(fam, P, n)
+    side = lambda m: sorted({float(f"{k * rng.uniform(0.92, 1.08) * m:.3g}") for k in rng.sample(HIGH_KS, per_side)})
+    return [-INF] + [-x for x in reversed(side(mneg))] + [0.0] + side(mpos) + [INF]
+
+
+def analytic_reference(c: Case, n, probe, rng, nquad=1):
+    """reference of the high-order stream: the pieces between adjacent break points from the incomplete gamma function / the Gaussian
+    partial-moment recurrence at 50 digits (`analytic_piece`; tanh-sinh quadrature of every piece at every order costs more than the
+    rest of the check).  `nquad` randomly chosen pieces are ALSO computed by the tanh-sinh quadrature of x^n * density (split at
+    multiples of the integrand's mode) and must agree to 1e-12 RELATIVE; a piece that disagrees, or lies outside the float range, is
+    discarded: the cases needing it are counted as skipped"""
+    desc = dict(model_desc(c.fam, c.params), high_order=True)
+    segs = list(zip(c.pts, c.pts[1:]))
+    check = set(rng.sample(segs, min(nquad, len(segs))))
+    for lo, hi in segs:
+        an = analytic_piece(c.fam, c.P, n, lo, hi)
+        ok = 1 / FLOAT_BIG < abs(an) < FLOAT_BIG
+        if ok and (lo, hi) in check:
+            # the integrand is divided by |an| first: mpmath's quad stops on an ABSOLUTE error estimate, no judge of a piece of 1e-40
+            inner = [M(e) for e in c.ref.extra if lo < e < hi]
+            q = mp.quad(lambda x: x ** n * c.ref.f(x) / abs(an), [M(lo)] + inner + [M(hi)])
+            ok = abs(q - mp.sign(an)) <= mp.mpf("1e-12")
+            c.ctx.count(probe, dict(desc, n=n, a=lo, b=hi), nontrivial=bool(ok), branch="quadrature_agrees" if ok else "quadrature_DISAGREES")
+            if not ok and _STATS is not None:
+                print("DISAGREE", c.fam, c.params, n, lo, hi, q)
+        elif not ok:
+            c.ctx.count(probe, dict(desc, n=n, a=lo, b=hi), nontrivial=False, branch="not_a_float")
+        c.ref.cache[(n, lo, hi)] = +an if ok else None
+        if not ok:
+            c.ref.cache[("unreliable", (n, lo, hi))] = True
+
+
+def high_order_probe(ctx, fam, params, n, rng, per_side=3):
+    """S (and, for VG, C) on one model at one high order: every pair of break points placed at the integrand's modes, additivity and
+    signs, one truncation at break points (class or truncate_levy_measure), VG: the term-by-term tie with M and the split-at-zero
+    pattern.  In the regime where a float intermediate of the finite sum overflows M (exact rationals) does not mirror the code: no tie"""
+    built = make_nu(fam, params)
+    pts = high_order_points(fam, built[1].parameters, n, rng, per_side)
+    c = HighOrderCase(ctx, fam, params, pts, n=n, built=built)
+    ctx.count("c09.high_order", dict(model_desc(fam, params), n=n), nontrivial=True, branch=f"{fam}:n<={10 * ((n + 9) // 10)}")
+    analytic_reference(c, n, "c09.high_order.reference", rng)
+    k = len(pts)
+    pairs = [(pts[i], pts[j]) for i in range(k) for j in range(i + 1, k)]
+    fin = [p for p in pts if not math.isinf(p)]
+    pairs.append((rng.choice(fin),) * 2)
+    for a, b in pairs:
+        closed_form_probe(c, "xn", n, a, b)
+    additivity_sign_probe(c, n, "xn")
+    fin_nz = [p for p in fin if p != 0]
+    l, r = rng.choice([p for p in fin_nz if p < 0]), rng.choice([p for p in fin_nz if p > 0])
+    if rng.random() < 0.3:
+        l, r = sorted(rng.sample(fin_nz, 2))
+    how = rng.choice("ca")
+    tm = nested_measure(c, [(l, r)], how)
+    for a, b in rng.sample(pairs, 12) + [(-INF, INF)]:
+        closed_form_probe(c, "xn", n, a, b, nu=tm, trunc=(l, r))
+    if fam == "vg":
+        P = c.P
+        for a, b in rng.sample(pairs, 10):
+            if vg_order_regime(P, n, a, b) != "float_range":
+                ctx.count("c09.vgxn.model", c.inp(n, "xn", a, b), nontrivial=False, branch="float_overflow_not_modelled")
+                continue
+            line = f"vgxn {w(P._c)} {w(P._lambda_p)} {w(P._lambda_m)} {n} {w(a)} {w(b)}"
+            terms_probe(ctx, "c09.vgxn.model", "Integrals.vgXnTerms vs _VGLevyMeasure.integrate_against_xn", line,
+                        lambda: c.nu.integrate_against_xn(a, b, n), c.inp(n, "xn", a, b), c.cls(n, "xn", a, b))
+        if n % 2 and all(vg_order_regime(P, n, a, b) == "float_range" for a, b in pairs):
+            split_model_probe(c, n, "xn")
+    return c
+
+
+def high_order_run(ctx):
+    """own generator (seeded by VERIF_SEED): the draws of the other streams stay as they were.  Per family the defaults and draws of
+    zoo.draw_params (rates of ordinary size: the moments of order n stay inside the float range up to n ~ 170), one order per stratum"""
+    rng = random.Random(f"c09.high_order|{ctx.seed}")
+    nm = {"vg": ctx.n(3, 8), "hem": ctx.n(2, 5), "merton": ctx.n(2, 5), "cgmy": ctx.n(2, 6)}
+    for fam in zoo.FAMILIES:
+        strata = HIGH_STRATA_CLOSED if fam == "vg" else HIGH_STRATA_QUAD
+        for i in range(nm[fam]):
+            params = {} if i == 0 else zoo.draw_params(rng, fam)
+            for j in range(len(strata)):
+                high_order_probe(ctx, fam, params, draw_order(rng, strata, j), rng)
+    xn_helper_stream(ctx, rng, ctx.n(120, 900), strata=HIGH_STRATA_CLOSED)
+
+
 # past failing inputs (corpus role): base-class quadrature over an interval straddling 0, before fd99be5 off by 4e-8..2e-7
 REGRESSIONS = [
     ("cgmy", {}, 3, -0.678, 0.0108),
@@ -1426,6 +1680,7 @@ def run(ctx):
         for _ in range(ctx.n(1, 6)):
             generic_fallback_probe(ctx, rng, fam, zoo.draw_params(rng, fam), 2)
     regime_run(ctx)
+    high_order_run(ctx)
     if _STATS is not None:
         for k_, v_ in sorted(_STATS.items(), key=lambda kv: -kv[1][0])[:40]:
             print("STAT", k_, v_)
@@ -1455,17 +1710,7 @@ def replay(ctx, rec):
             if abs(fr(got) - m) > fr(2.0 ** -40) * abs(m):
                 ctx.fail("corr", "c09.helper.model", d, {"name": "Integrals.helperSum vs _helper_sum_fact_xk", "implementation": got, "model": str(m)[:60]})
             return
-        n, alpha, a, b = d["n"], d["alpha"], float(d["a"]), float(d["b"])
-        terms_probe(ctx, "c09.xnexp.model", "Integrals.xnExpTerms vs integral_xn_exp_minus_x", f"xnexp {n} {w(alpha)} {w(a)} {w(b)}",
-                    lambda: toolint.integral_xn_exp_minus_x(n=n, a=a, b=b, alpha=alpha), d, rec.get("cls", {}))
-        if alpha > 0:
-            al = M(alpha)
-            cuts = sorted({a, b} | ({0.0} if a < 0 < b else set()))
-            ref = sum((mp.quad(lambda x: x ** n * mp.exp(-al * abs(x)), [M(lo), M(hi)]) for lo, hi in zip(cuts, cuts[1:])), mp.mpf(0))
-            got = float(toolint.integral_xn_exp_minus_x(n=n, a=a, b=b, alpha=alpha))
-            ctx.count("c09.xnexp", d)
-            if not abs(M(got) - ref) <= mp.mpf("1e-8") * abs(ref) + mp.mpf("1e-13") * mp.factorial(n) / al ** (n + 1):
-                ctx.fail("oracle", "c09.xnexp", d, {"implementation": got, "reference": mp.nstr(ref, 17)}, cls=rec.get("cls", {}))
+        xnexp_case(ctx, dict(d, a=float(d["a"]), b=float(d["b"])), rec.get("cls", {}))
         return
     if "family" not in d:
         return
@@ -1480,8 +1725,11 @@ def replay(ctx, rec):
     a, b, n, route = float(d["a"]), float(d["b"]), d["n"], d.get("route", "xn")
     pts = sorted({-INF, INF, 0.0, a, b} | ({float(d["split"])} if "split" in d else set()) | ({float(t) for t in d["trunc"]} if "trunc" in d else set())
                  | {float(t) for iv in d.get("trunc_chain", []) for t in iv})
-    c = (RegimeCase if "regime" in d else Case)(ctx, fam, params, pts)
+    c = RegimeCase(ctx, fam, params, pts) if "regime" in d else HighOrderCase(ctx, fam, params, pts, n=n) if d.get("high_order") \
+        else Case(ctx, fam, params, pts)
     c.regime = d.get("regime")
+    if d.get("high_order"):
+        analytic_reference(c, n, "c09.high_order.reference", ctx.rng, nquad=0)
     if d.get("generic"):
         g = _Generic(c.nu)
         ref = c.ref.integral(n, a, b)
